@@ -448,7 +448,7 @@ def _ndim_only(test, target):
 
 @rule(
     "R02c",
-    ["C02", "C14"],
+    ["C02", "C14", "C17"],
     """CO-ALIGNMENT IS JUDGED OVER ALL ANCESTORS: are_co_aligned is the single decision between the plain partitionwise class
     and its aligning sibling (and what Fused groups rely on). Its walk must follow EVERY dependency of a partitionwise
     node (an unfiltered `.dependencies()`), must count every non-partitionwise, non-scalar node as an ancestor, may
@@ -516,6 +516,9 @@ def r02c(ctx):
         isinst = [(t_, pol) for t_, pol in facts if pmatch(f"isinstance({node_var}, V_k)", t_) is not None]
         if any(pol and pmatch(f"isinstance({node_var}, IO)", t_) is not None for t_, pol in isinst):
             io_ok = True
+            # a scalar source (persisted / re-imported scalar) must already have been skipped: scalars broadcast
+            scalar_first = any((not pol) and pmatch(f"{node_var}.ndim == 0", t_) is not None for t_, pol in facts)
+            (ctx.ok if scalar_first else ctx.bad)("_expr.are_co_aligned:scalar-sources", mod.loc(pt.stmt), "scalar sources are skipped before sources are recorded" if scalar_first else "a source is recorded as an ancestor before its dimensionality is looked at: a persisted or re-imported scalar (an IO node) makes an otherwise aligned operation look unaligned")
         # the arm for "none of the known kinds": every class test on the node is negative here
         if isinst and all(not pol for t_, pol in isinst) and any(pmatch(f"isinstance({node_var}, IO)", t_) is not None for t_, pol in isinst):
             else_ok = True
